@@ -804,4 +804,33 @@ def prov_squash(repo, tier="quick"):
                           reason="after every contraction the kept atom also records the removed atom's coarse node")) if ok else
          obs.append(ob_fail(oid, fi, call, construct="kept['%s'] += contraction[removed]['%s']" % (key, key), instance=key,
                             reason="a path from the contraction to the next iteration does not extend the kept atom's '%s' by the removed atom's" % key)))
+    # the shared atom is ONE atom written twice: apart from the membership lists nothing of the two descriptions is added up
+    summed = []
+    n_stores = 0
+    for n in cfg.nodes:
+        if n.kind != "stmt" or not isinstance(n.ast, (ast.Assign, ast.AugAssign)):
+            continue
+        tgt = n.ast.target if isinstance(n.ast, ast.AugAssign) else n.ast.targets[0]
+        if not isinstance(tgt, ast.Subscript):
+            continue
+        na = node_attr(fl.canon(tgt, n.id))
+        if not na or na[1] != keep or na[2][0] != "const" or na[2][1] in ("fragid", "mapping"):
+            continue
+        n_stores += 1
+        vv = fl.canon(n.ast.value, n.id)
+        from_removed = lambda t: any(x[0] == "sub" and x[2] == rem for x in walk_term(t) if isinstance(x, tuple) and len(x) == 3)
+        if isinstance(n.ast, ast.AugAssign) and isinstance(n.ast.op, (ast.Add, ast.Sub)) and from_removed(vv):
+            summed.append((n, na[2][1]))
+        else:
+            for x in walk_term(vv):
+                if isinstance(x, tuple) and x and x[0] == "binop" and x[1] in ("+", "-") and from_removed(x):
+                    summed.append((n, na[2][1]))
+                    break
+    for n, key in summed:
+        obs.append(ob_fail("PROV.squash-one-atom", fi, n.ast, construct="kept[%r] combined arithmetically with the removed atom's value" % key, instance="sum:" + str(key),
+                           reason="the two marked atoms describe one atom; adding up an attribute of both descriptions (written identically in both "
+                                  "fragments) doubles it, so the overlapping description no longer resolves to the molecule of the disjoint one"))
+    if not summed:
+        obs.append(ob_ok("PROV.squash-one-atom", fi, call, construct="%d other attribute stores on the kept atom, none adds up both descriptions" % n_stores,
+                         instance="sum", reason="only the membership lists of the two atoms are concatenated"))
     return obs
